@@ -381,11 +381,12 @@ def check(ctx):
     # ---------------- R10: str is not a collection
     ctx.rule("C13.R10", "serialization of a union: an alternative annotated with an abstract collection (Sequence, Collection, ...) does not capture str / bytes values, which are instances of those classes but no collections for the data model (deserialization refuses a string for Sequence[...]): the value goes on to the str alternative", floor=2)
     un = model.func("apischema.serialization.SerializationMethodVisitor.union")
-    guards10 = [n for n in ast.walk(un.node) if isinstance(n, ast.If) and "issubclass(str, cls)" in norm(n.test) and "Collection" in norm(n.test)]
+    guards10 = [n for n in ast.walk(un.node) if isinstance(n, (ast.If, ast.IfExp)) and "issubclass(str, cls)" in norm(n.test) and "Collection" in norm(n.test)]
     picked = None
     for g in guards10:
-        # the class chosen under the guard: assigned to a class-valued local (`alt_cls = X`) or instantiated there (`X(cls, method)`)
-        for b in g.body:
+        # the class chosen under the guard: assigned to a class-valued local (`alt_cls = X`), instantiated there (`X(cls, method)`)
+        # or selected by a conditional expression (`(X if guard else Y)(cls, method)`)
+        for b in (g.body if isinstance(g, ast.If) else [g.body]):
             for a in ast.walk(b):
                 if isinstance(a, ast.Name) and isinstance(a.ctx, ast.Load) and f"{SER_MOD}.{a.id}" in model.classes and picked is None:
                     picked = a.id
